@@ -144,7 +144,7 @@ fn run_once(sc: &Scenario, collect: bool) -> Outcome {
         let loader = std::rc::Rc::new(SimLoader::default());
         for (i, src) in sc.parts.iter().enumerate() {
             loader.sources.borrow_mut().insert(format!("m{i}"), src.clone());
-            loader.plans.borrow_mut().insert(format!("m{i}"), LoadPlan { latency: (i % 3) as u32, fault: 0 });
+            loader.plans.borrow_mut().insert(format!("m{i}"), LoadPlan { latency: (i % 3) as u32, fault: 0, fault_times: 0 });
         }
         {
             let (mut ctx, host) = js::new_context::<boa_engine::job::SimpleJobExecutor, SimLoader>(None, Some(loader.clone()));
